@@ -149,39 +149,42 @@ theorem fillMly_asc (r : Rule) (p : Inst) (n : Nat) (l : List Inst) (hr : WfRule
         exact ⟨he.base hJ.1, he.desc hs hJ.1 hJ.2⟩)
       (mlyTries * (nti + 1) + 12 * 2100 + 1) y0 m0 mlyTries {} ⟨Base.init _, List.Pairwise.nil⟩
     exact hJ.2
-/-- C16 / C09 for one call of the monthly filler, under the two provisos of `fillMly_wf` (needed for `wf` only):
+/-- C16 / C09 for one call of the monthly filler, under the proviso of `fillMly_wf` (needed for `wf` only):
 * `hs : ShiftKeepsDates r.shift` — `shift()` maps real dates of a year ≤ 2099 to real dates of the year their set is
-  emitted under (true for SHIFT absent, `shiftKeepsDates_zero`);
-* `had : AllDayOk r p` — an all-day seed without BYHOUR gets no non-zero BYMINUTE / BYSECOND. -/
+  emitted under (true for SHIFT absent, `shiftKeepsDates_zero`). -/
 theorem fillMly_ok_partial (r : Rule) (p : Inst) (n : Nat) (l : List Inst) (hr : WfRule r) (hp : WfInst p) (_hn : n ≤ 64)
-    (hs : ShiftKeepsDates r.shift) (had : AllDayOk r p) (h : fillMly r p n = some l) : FillOk r p n l :=
+    (hs : ShiftKeepsDates r.shift) (h : fillMly r p n = some l) : FillOk r p n l :=
   { len_nti := (fillMly_len r p n l hr h).1
     len_count := (fillMly_len r p n l hr h).2
-    wf := fillMly_wf r p n l hr hp hs had h
+    wf := fillMly_wf r p n l hr hp hs h
     ge_proto := (fillMly_bounds r p n l h).1
     le_until := (fillMly_bounds r p n l h).2
     ascending := fillMly_asc r p n l hr hp h }
 
-/-- the full statement for rules without SHIFT whose seed has a time of day (or that have no BYMINUTE / BYSECOND) -/
+/-- the full statement for rules without SHIFT -/
 theorem fillMly_ok_noshift (r : Rule) (p : Inst) (n : Nat) (l : List Inst) (hr : WfRule r) (hp : WfInst p) (hn : n ≤ 64)
-    (hs : r.shift = 0) (had : AllDayOk r p) (h : fillMly r p n = some l) : FillOk r p n l :=
-  fillMly_ok_partial r p n l hr hp hn (hs ▸ shiftKeepsDates_zero) had h
+    (hs : r.shift = 0) (h : fillMly r p n = some l) : FillOk r p n l :=
+  fillMly_ok_partial r p n l hr hp hn (hs ▸ shiftKeepsDates_zero) h
 
-/-- `fillMly_ok` as first stated (without the provisos) is false: FREQ=MONTHLY;BYMINUTE=30 on an all-day seed
-yields instants with hour 255 (all-day) and minute 30 -/
+/-- FREQ=MONTHLY;BYMINUTE=30 on an all-day seed: BYMINUTE is ignored next to a DATE value (RFC 5545, 3.3.10), the
+filler writes the plain all-day instant (before the repair of `make_enum`: hour 255 with minute 30) -/
+theorem fillMly_allDay_byminute :
+    fillMly { freq := 2, M := [30] } { y := 2000, m := 1, d := 1, H := 255, M := 0, S := 0, ms := 0 } 1 =
+    some [{ y := 2000, m := 1, d := 1, H := 255, M := 0, S := 0, ms := 0 }] := by decide +kernel
+
+/-- `fillMly_ok` as first stated (without the proviso) is false: FREQ=MONTHLY;BYMONTHDAY=1;SHIFT=-672 from
+2021-01-01 writes 2021-02-29 -/
 theorem fillMly_ok_counterexample :
     ¬ ∀ (r : Rule) (p : Inst) (n : Nat) (l : List Inst), WfRule r → WfInst p → n ≤ 64 → fillMly r p n = some l →
       FillOk r p n l := by
   intro hall
-  have hr : WfRule { freq := 2, M := [30] } :=
-    { scale := rfl, inter := by decide, count := by decide, hours := ⟨List.Pairwise.nil, by decide⟩,
-      mins := ⟨List.pairwise_singleton _ _, by decide⟩, secs := ⟨List.Pairwise.nil, by decide⟩,
-      mon := ⟨List.Pairwise.nil, by decide⟩, dom := by decide, doy := by decide, wk := by decide, dow := by decide,
-      pos := by decide, easter := by decide, shift := by decide }
-  have hp : WfInst { y := 2000, m := 1, d := 1, H := 255, M := 0, S := 0, ms := 0 } :=
+  have hr : WfRule { freq := 2, shift := -672 * 65536, dom := [1] } := by
+    constructor <;> simp [Asc]
+  have hp : WfInst { y := 2021, m := 1, d := 1, H := 255, M := 0, S := 0, ms := 0 } :=
     { year := by decide, month := by decide, day := by decide, time := by decide, ms := by decide }
-  have h := hall _ _ 1 [{ y := 2000, m := 1, d := 1, H := 255, M := 30, S := 0, ms := 0 }] hr hp (by decide) (by decide +kernel)
-  have := (h.wf _ List.mem_cons_self).time
+  have h := hall _ _ 1 [{ y := 2021, m := 2, d := 29, H := 255, M := 0, S := 0, ms := 0 }] hr hp (by decide)
+    (by decide +kernel)
+  have := (h.wf _ List.mem_cons_self).day
   revert this
   decide
 end Echse.Lemmas.RrMlyOk
